@@ -191,37 +191,144 @@ type parser struct {
 	reads   int
 	nilZero bool // a zero-length read failed on a nil String (empty top-level output)
 	modes   map[string]int
+	// out-parameter pre-state: every read goes into a destination that is either fresh (mode 0), pre-filled with
+	// all-ones / long garbage (mode 1) or the variable reused from the previous read of that type (mode 2, 3)
+	leaks []string // methods whose result was wrong only because of the destination's pre-state
+	reU8  uint8
+	reU16 uint16
+	reU32 uint32
+	reU64 uint64
+	reStr cryptobyte.String
+	reBuf []byte
+	reTag asn1.Tag
+	rePre bool
+}
+
+func pickDest[T any](mode int, reused *T, garbage T) *T {
+	switch mode {
+	case 0:
+		return new(T)
+	case 1:
+		p := new(T)
+		*p = garbage
+		return p
+	}
+	return reused
+}
+
+func garbageBytes() []byte {
+	b := make([]byte, 33, 64)
+	for i := range b[:64] {
+		b[:64][i] = 0xff
+	}
+	return b
+}
+
+func (ps *parser) readUint(s *cryptobyte.String, n, mode int) (bool, uint64) {
+	switch n {
+	case 1:
+		p := pickDest(mode, &ps.reU8, 0xff)
+		ok := s.ReadUint8(p)
+		return ok, uint64(*p)
+	case 2:
+		p := pickDest(mode, &ps.reU16, 0xffff)
+		ok := s.ReadUint16(p)
+		return ok, uint64(*p)
+	case 3:
+		p := pickDest(mode, &ps.reU32, 0xffffffff)
+		ok := s.ReadUint24(p)
+		return ok, uint64(*p)
+	case 4:
+		p := pickDest(mode, &ps.reU32, 0xffffffff)
+		ok := s.ReadUint32(p)
+		return ok, uint64(*p)
+	case 6:
+		p := pickDest(mode, &ps.reU64, ^uint64(0))
+		ok := s.ReadUint48(p)
+		return ok, *p
+	}
+	p := pickDest(mode, &ps.reU64, ^uint64(0))
+	ok := s.ReadUint64(p)
+	return ok, *p
+}
+
+func (ps *parser) readBytes(s *cryptobyte.String, n, mode int, useCopy bool) (bool, []byte) {
+	if useCopy {
+		got := make([]byte, n)
+		if mode != 0 {
+			for i := range got {
+				got[i] = 0xff
+			}
+		}
+		ok := s.CopyBytes(got)
+		return ok, got
+	}
+	p := pickDest(mode, &ps.reBuf, garbageBytes())
+	ok := s.ReadBytes(p, n)
+	return ok, *p
+}
+
+func (ps *parser) readLP(s *cryptobyte.String, n, mode int) (bool, cryptobyte.String) {
+	p := pickDest(mode, &ps.reStr, cryptobyte.String(garbageBytes()))
+	var ok bool
+	switch n {
+	case 1:
+		ok = s.ReadUint8LengthPrefixed(p)
+	case 2:
+		ok = s.ReadUint16LengthPrefixed(p)
+	case 3:
+		ok = s.ReadUint24LengthPrefixed(p)
+	case 4:
+		l := pickDest(mode, &ps.reU32, 0xffffffff)
+		ok = s.ReadUint32(l) && s.ReadBytes((*[]byte)(p), int(*l))
+	}
+	return ok, *p
+}
+
+// readASN1 reads one element with the given read style; size = expected element size.
+func (ps *parser) readASN1(s *cryptobyte.String, tag asn1.Tag, size, style, mode int) (bool, cryptobyte.String) {
+	c := pickDest(mode, &ps.reStr, cryptobyte.String(garbageBytes()))
+	t := pickDest(mode, &ps.reTag, asn1.Tag(0xff))
+	pres := pickDest(mode, &ps.rePre, true)
+	var ok bool
+	switch style {
+	case 0:
+		ok = s.ReadASN1(c, tag)
+	case 1:
+		ok = s.ReadAnyASN1(c, t) && *t == tag
+	case 2:
+		e := cryptobyte.String(garbageBytes())
+		ok = s.ReadASN1Element(&e, tag) && len(e) == size && e.ReadASN1(c, tag) && e.Empty()
+	case 3:
+		e := cryptobyte.String(garbageBytes())
+		ok = s.ReadAnyASN1Element(&e, t) && *t == tag && len(e) == size && e.ReadASN1(c, tag) && e.Empty()
+	case 4:
+		ok = s.ReadOptionalASN1(c, pres, tag) && *pres
+	case 5:
+		ok = s.ReadASN1Bytes((*[]byte)(c), tag)
+	case 6:
+		cp := *s
+		ok = s.PeekASN1Tag(tag) && cp.SkipASN1(tag) && s.ReadASN1(c, tag) && len(cp) == len(*s)
+	}
+	return ok, *c
 }
 
 func (ps *parser) level(s *cryptobyte.String, items []item, path string) bool {
 	for i, it := range items {
 		here := fmt.Sprintf("%s/%d", path, i)
 		ps.reads++
+		mode := ps.r.IntN(4)
+		ps.modes[fmt.Sprintf("dest-prestate-%d", min(mode, 2))]++
+		before := *s
 		switch it.kind {
 		case kUint:
-			var got uint64
-			var ok bool
-			switch it.n {
-			case 1:
-				var v uint8
-				ok = s.ReadUint8(&v)
-				got = uint64(v)
-			case 2:
-				var v uint16
-				ok = s.ReadUint16(&v)
-				got = uint64(v)
-			case 3:
-				var v uint32
-				ok = s.ReadUint24(&v)
-				got = uint64(v)
-			case 4:
-				var v uint32
-				ok = s.ReadUint32(&v)
-				got = uint64(v)
-			case 6:
-				ok = s.ReadUint48(&got)
-			case 8:
-				ok = s.ReadUint64(&got)
+			ok, got := ps.readUint(s, it.n, mode)
+			if (!ok || got != it.v) && mode != 0 {
+				retry := before
+				if ok0, got0 := ps.readUint(&retry, it.n, 0); ok0 && got0 == it.v {
+					ps.leaks = append(ps.leaks, fmt.Sprintf("ReadUint%d", 8*it.n))
+					*s, ok, got = retry, ok0, got0
+				}
 			}
 			if !ok || got != it.v {
 				ps.fail = fmt.Sprintf("%s: ReadUint%d ok=%v got=%#x want=%#x", here, 8*it.n, ok, got, it.v)
@@ -229,15 +336,19 @@ func (ps *parser) level(s *cryptobyte.String, items []item, path string) bool {
 			}
 		case kBytes:
 			wasNil := *s == nil
-			var got []byte
-			var ok bool
-			if ps.r.IntN(2) == 0 {
-				ok = s.ReadBytes(&got, len(it.data))
-				ps.modes["ReadBytes"]++
-			} else {
-				got = make([]byte, len(it.data))
-				ok = s.CopyBytes(got)
-				ps.modes["CopyBytes"]++
+			useCopy := ps.r.IntN(2) == 1
+			name := "ReadBytes"
+			if useCopy {
+				name = "CopyBytes"
+			}
+			ps.modes[name]++
+			ok, got := ps.readBytes(s, len(it.data), mode, useCopy)
+			if (!ok || !bytes.Equal(got, it.data)) && mode != 0 {
+				retry := before
+				if ok0, got0 := ps.readBytes(&retry, len(it.data), 0, useCopy); ok0 && bytes.Equal(got0, it.data) {
+					ps.leaks = append(ps.leaks, name)
+					*s, ok, got = retry, ok0, got0
+				}
 			}
 			if !ok && len(it.data) == 0 && wasNil {
 				ps.nilZero = true
@@ -248,18 +359,13 @@ func (ps *parser) level(s *cryptobyte.String, items []item, path string) bool {
 				return false
 			}
 		case kLP:
-			var c cryptobyte.String
-			var ok bool
-			switch it.n {
-			case 1:
-				ok = s.ReadUint8LengthPrefixed(&c)
-			case 2:
-				ok = s.ReadUint16LengthPrefixed(&c)
-			case 3:
-				ok = s.ReadUint24LengthPrefixed(&c)
-			case 4:
-				var l uint32
-				ok = s.ReadUint32(&l) && s.ReadBytes((*[]byte)(&c), int(l))
+			ok, c := ps.readLP(s, it.n, mode)
+			if (!ok || len(c) != it.size-it.n) && mode != 0 {
+				retry := before
+				if ok0, c0 := ps.readLP(&retry, it.n, 0); ok0 && len(c0) == it.size-it.n {
+					ps.leaks = append(ps.leaks, fmt.Sprintf("ReadUint%dLengthPrefixed", 8*it.n))
+					*s, ok, c = retry, ok0, c0
+				}
 			}
 			if !ok {
 				ps.fail = fmt.Sprintf("%s: ReadUint%dLengthPrefixed failed", here, 8*it.n)
@@ -269,35 +375,23 @@ func (ps *parser) level(s *cryptobyte.String, items []item, path string) bool {
 				return false
 			}
 		case kASN1:
-			var c cryptobyte.String
-			var ok bool
 			tag := asn1.Tag(it.tag)
-			mode := ps.r.IntN(7)
-			switch mode {
-			case 0:
-				ok = s.ReadASN1(&c, tag)
-			case 1:
-				var t asn1.Tag
-				ok = s.ReadAnyASN1(&c, &t) && t == tag
-			case 2:
-				var e cryptobyte.String
-				ok = s.ReadASN1Element(&e, tag) && len(e) == it.size && e.ReadASN1(&c, tag) && e.Empty()
-			case 3:
-				var e cryptobyte.String
-				var t asn1.Tag
-				ok = s.ReadAnyASN1Element(&e, &t) && t == tag && len(e) == it.size && e.ReadASN1(&c, tag) && e.Empty()
-			case 4:
-				var present bool
-				ok = s.ReadOptionalASN1(&c, &present, tag) && present
-			case 5:
-				ok = s.ReadASN1Bytes((*[]byte)(&c), tag)
-			case 6:
-				cp := *s
-				ok = s.PeekASN1Tag(tag) && cp.SkipASN1(tag) && s.ReadASN1(&c, tag) && len(cp) == len(*s)
+			style := ps.r.IntN(7)
+			ps.modes[fmt.Sprintf("asn1-mode-%d", style)]++
+			contentLen := 0
+			for _, k := range it.kids {
+				contentLen += k.size
 			}
-			ps.modes[fmt.Sprintf("asn1-mode-%d", mode)]++
+			ok, c := ps.readASN1(s, tag, it.size, style, mode)
+			if (!ok || len(c) != contentLen) && mode != 0 {
+				retry := before
+				if ok0, c0 := ps.readASN1(&retry, tag, it.size, style, 0); ok0 && len(c0) == contentLen {
+					ps.leaks = append(ps.leaks, fmt.Sprintf("ASN.1-read-style-%d", style))
+					*s, ok, c = retry, ok0, c0
+				}
+			}
 			if !ok {
-				ps.fail = fmt.Sprintf("%s: ASN.1 read mode %d of tag %#x (element size %d) failed", here, mode, it.tag, it.size)
+				ps.fail = fmt.Sprintf("%s: ASN.1 read mode %d of tag %#x (element size %d) failed", here, style, it.tag, it.size)
 				return false
 			}
 			if !ps.level(&c, it.kids, here) {
@@ -489,6 +583,9 @@ func judge(p *program, readSeed uint64) verdict {
 		}
 		if preEqual && !bytes.Equal(o.out, want) {
 			add("reader-modified-input", nil) // the output equalled the model before the mirrored reads ran
+		}
+		for _, l := range ps.leaks {
+			add("out-param-prestate-leaks:"+l, map[string]any{"note": "the read returned the wrong result into a pre-filled or reused destination and the right one into a fresh zero variable"})
 		}
 		if ps.nilZero {
 			add("zero-length-read-fails-on-nil-string", map[string]any{"out_is_nil": o.out == nil, "note": "Bytes() of a builder that wrote nothing is nil; String(nil).ReadBytes(&v,0)/CopyBytes(empty) report failure although String([]byte{}).ReadBytes(&v,0) succeeds"})
@@ -917,6 +1014,8 @@ func TestC22(t *testing.T) {
 	m.Gate("expected_panic_seen:raw-panic", 50, "continuation panics with other value")
 	m.Gate("expected_panic_seen:misuse-ancestor", 100, "parent used while child pending")
 	m.Gate("unwrite_legal", 1000, "legal Unwrite")
+	m.Gate("read:dest-prestate-1", m.N(20000, 1000000), "mirrored reads into a destination pre-filled with all-ones / long garbage")
+	m.Gate("read:dest-prestate-2", m.N(40000, 2000000), "mirrored reads into a variable reused from the previous read of that type")
 	m.Gate("addbytes_args_checked", m.N(20000, 1000000), "AddBytes arguments verified unchanged (incl. spare capacity) and overwritten afterwards")
 	m.Gate("fixed_exact_capacity_ok", 500, "fixed builder with exactly the needed capacity")
 	m.Gate("fixed_alias_checked", 1000, "result aliases the given array")
